@@ -133,6 +133,8 @@ func init() {
 					}
 					add(c15Params{Fault: "badfile", NumVB: n, Nodes: 1, Backend: "file", Stored: st, FileContent: fc[(r*2+k)%4], AutoReset: []string{"", "latest"}[rng.Intn(2)]}, 60)
 				}
+				add(c15Params{Fault: "seqno-on-reopen", NumVB: 2 + rng.Intn(3), Nodes: 1, Status: []int{0x24, 0x84}[rng.Intn(2)], WaitMs: 2500}, 90)
+				add(c15Params{Fault: "load-on-reopen", NumVB: 2 + rng.Intn(3), Nodes: 1, Status: []int{0x24, 0x84}[rng.Intn(2)], Backend: "cb", WaitMs: 2500}, 90)
 				add(c15Params{Fault: "badmeta", NumVB: 2, Nodes: 1}, 60)
 				add(c15Params{Fault: "badmember", NumVB: 2, Nodes: 1}, 60)
 				// double faults
@@ -265,6 +267,11 @@ func runC15(sc drv.Scenario) drv.Result {
 			env.Sim.PutDoc(fmt.Sprintf("_connector:cbgo:%s:checkpoint:%d", cfg.Dcp.Group.Name, vb), []byte("{}"), map[string]json.RawMessage{"cbgo": json.RawMessage(doc)})
 		}
 	}
+	if p.Fault == "seqno-on-reopen" || p.Fault == "load-on-reopen" {
+		cfg.API.Disabled = false
+		cfg.API.Port = hx.FreePort()
+		cfg.Dcp.Group.Membership.RebalanceDelay = 30 * time.Millisecond
+	}
 	switch p.Fault {
 	case "badmeta":
 		cfg.Metadata.Type = "redis"
@@ -276,6 +283,7 @@ func runC15(sc drv.Scenario) drv.Result {
 	nreq := map[int]int{}
 	reported := map[int]uint64{}
 	holdVB1 := make(chan struct{})
+	armed := false // faults that hit the reopen of a rebalance are switched on after start-up
 	env.Sim.Hook = func(r *cbsim.Req) *cbsim.Action {
 		mu.Lock()
 		defer mu.Unlock()
@@ -287,6 +295,9 @@ func runC15(sc drv.Scenario) drv.Result {
 		}
 		switch r.Op {
 		case cbsim.OpSubdocLookup:
+			if p.Fault == "load-on-reopen" && armed && strings.Contains(string(r.Key), ":checkpoint:") {
+				return act()
+			}
 			if p.Fault == "load" {
 				for _, vb := range p.VBs {
 					if strings.HasSuffix(string(r.Key), fmt.Sprintf(":checkpoint:%d", vb)) {
@@ -296,6 +307,9 @@ func runC15(sc drv.Scenario) drv.Result {
 			}
 		case cbsim.OpGetAllVBSeqnos:
 			if p.Fault == "seqno" && r.Node == 0 {
+				return act()
+			}
+			if p.Fault == "seqno-on-reopen" && armed {
 				return act()
 			}
 			if p.Fault == "seqno-omit" {
@@ -382,6 +396,14 @@ func runC15(sc drv.Scenario) drv.Result {
 	}
 	if p.Fault == "reopen" {
 		env.Sim.EndStreams(uint16(p.VBs[0]), 2)
+	}
+	if p.Fault == "seqno-on-reopen" || p.Fault == "load-on-reopen" {
+		// start-up went fine; the same defect at the reopen of a rebalance (GET /rebalance) must end the client just the same
+		mu.Lock()
+		armed = true
+		mu.Unlock()
+		drv.NoteFlush("rebalance requested with fault armed")
+		go hx.HTTPDo("GET", fmt.Sprintf("http://127.0.0.1:%d/rebalance", cfg.API.Port), "", 20*time.Second)
 	}
 	wait := 1500
 	if p.WaitMs > 0 {
